@@ -1040,6 +1040,51 @@ pub fn views_sweep(r: &Report) {
         n_vals.fetch_add(vals, Ordering::Relaxed);
         n_mixed.fetch_add(mixed, Ordering::Relaxed);
     });
+    // Ladders in every view unit: the count of nanoseconds, microseconds,
+    // milliseconds and seconds since the epoch on both sides of every power of
+    // two and of ten (a view or constructor computed in a narrower integer
+    // than i128 breaks where *its own* unit count, not the second, crosses such
+    // a threshold: 2^63 ns is an instant in 2262), with sub-unit remainders.
+    let mut ladder: Vec<i128> = vec![];
+    for unit in [1i128, 1_000, 1_000_000, NS] {
+        let mut counts: Vec<i128> = vec![];
+        for k in 20..100u32 {
+            counts.push(1i128 << k);
+        }
+        let mut p10 = 1_000_000i128;
+        for _ in 0..24 {
+            counts.push(p10);
+            p10 *= 10;
+        }
+        for c in counts {
+            for d in [-1i128, 0, 1] {
+                for rem in [0i128, 1, unit / 2, unit - 1] {
+                    if rem >= unit {
+                        continue;
+                    }
+                    let x = (c + d) * unit + rem;
+                    ladder.push(x);
+                    ladder.push(-x);
+                }
+            }
+        }
+    }
+    ladder.retain(|x| (MIN_NS..=MAX_NS).contains(x));
+    ladder.sort_unstable();
+    ladder.dedup();
+    r.count("views_sweep_unit_ladder_values", ladder.len() as u64);
+    for &exact in &ladder {
+        let case = format!("nanosecond-count={}", exact);
+        match guard(|| Timestamp::from_nanosecond(exact)) {
+            Ok(Ok(ts)) => check_views(r, section, "Timestamp::from_nanosecond", &case, ts, exact),
+            Ok(Err(e)) => r.viol(section, "Timestamp::from_nanosecond/rejected-in-range", case.clone(), e.to_string()),
+            Err(p) => r.viol(section, &format!("Timestamp::from_nanosecond/{}", panic_sig(&p)), case.clone(), p),
+        }
+    }
+    r.add_states(ladder.len() as u64);
+    r.add_transitions(ladder.len() as u64);
+    r.add_validated(ladder.len() as u64 * 15);
+    r.require(ladder.len() > 1_000, "the unit ladders are populated");
     r.outcome("views_sweep_values", n_vals.load(Ordering::Relaxed));
     r.outcome("views_sweep_mixed_sign_spellings", n_mixed.load(Ordering::Relaxed));
     r.require(n_vals.load(Ordering::Relaxed) > 100_000 && n_mixed.load(Ordering::Relaxed) > 100_000, "views sweep visited values and mixed-sign spellings");
